@@ -1,7 +1,538 @@
-// Package fronthttp is one of the three fronts of check C09 (see ../main.go).
+// Package fronthttp is front (a) of check C09 (see ../main.go): HTTP grammar fuzzing of both routers.
+//
+// A case is a fresh world (provider configuration variant x storage capability subset x issuer mode x legacy
+// endpoint layout, all drawn from the case PRNG) that is first driven through live flows to harvest *valid*
+// material (codes, refresh tokens, opaque and JWT access tokens, id tokens, device codes, client assertions,
+// request objects) and then receives a batch of generated requests: an operation template that is valid as drawn
+// (so that deep code is reached) plus 0..4 mutations (hostile values, Authorization header shapes, duplicated
+// parameters, typed-field errors, malformed percent-escapes, placement, method, Content-Type, Host / Forwarded
+// garbage, CORS). Every request - the harvesting ones included - is executed in-process through the recording
+// ResponseWriter and judged by the structural oracle of the property statement:
+//
+//	no panic; at most one WriteHeader and one document in the body; a response was written; JSON bodies parse;
+//	no mutating storage call is journaled after the first byte of an error response of the same request.
+//
+// The case is run once per router with the same PRNG stream, so both routers see the same request sequence
+// (modulo the harvested values).
 package fronthttp
 
-import "verif/internal/ev"
+import (
+	"bytes"
+	"encoding/json"
+	"fmt"
+	"io"
+	"log"
+	"net/url"
+	"os"
+	"path/filepath"
+	"sort"
+	"strings"
+	"sync"
 
-// Run executes the front and records into run. prefix is the violation-key prefix ("C09:http:").
-func Run(run *ev.Run) {}
+	"verif/internal/ev"
+	"verif/internal/mon"
+	"verif/internal/opdrv"
+	"verif/internal/vstore"
+)
+
+const (
+	streamCase   = 100 // ev.CaseRand stream of this front (100-199 are reserved for it)
+	batchPerCase = 60  // fuzzed requests per (case, router); harvesting flows come on top
+	keyPrefix    = "C09:http:"
+)
+
+// Run executes the front and records into run.
+func Run(run *ev.Run) {
+	oldLog := log.Writer()
+	log.SetOutput(io.Discard) // op.hostFromForwarded logs every malformed Forwarded header through the std logger
+	defer log.SetOutput(oldLog)
+
+	run.Assume("front http: requests are built the way net/http's server hands them to a handler (request target accepted by url.ParseRequestURI, header values and Host accepted by httpguts; what the server itself answers 400 to is repaired before execution and counted)",
+		"front http: a mutating storage call is one of vstore.Entry.Mutating(); 'after the error response' = journal Seq greater than the recorder's FirstWriteSeq within the same request, on a store that serves one request at a time")
+	var mand []string
+	for _, rn := range opdrv.RouterNames {
+		mand = append(mand, "http:flow-code-exchange:"+rn, "http:parse-error-branch:"+rn, "http:fuzzed-token-success:"+rn, "http:dynamic-issuer-hostile-host:"+rn,
+			"http:unrouted-404:"+rn, "http:typed-field-error:"+rn)
+		for _, g := range []string{"authorization_code", "refresh_token", "client_credentials", "jwt-bearer", "token-exchange", "device_code"} {
+			mand = append(mand, "http:grant-reached-storage:"+g+":"+rn)
+		}
+	}
+	run.Mandatory(mand...)
+
+	fl := newInflight(run)
+	defer fl.close()
+
+	if w := run.ReplayWitness(); run.ReplayCase() >= 0 || len(w) > 0 {
+		var wit struct {
+			Front    string `json:"front"`
+			Inflight []struct {
+				Case int `json:"case"`
+			} `json:"inflight"`
+		}
+		_ = json.Unmarshal(w, &wit)
+		if wit.Front != "http" {
+			return // the replay file belongs to another front
+		}
+		cases := []int{int(run.ReplayCase())}
+		if len(wit.Inflight) > 0 {
+			cases = cases[:0]
+			seen := map[int]bool{}
+			for _, s := range wit.Inflight {
+				if s.Case >= 0 && !seen[s.Case] {
+					seen[s.Case] = true
+					cases = append(cases, s.Case)
+				}
+			}
+		}
+		for _, c := range cases {
+			if c >= 0 {
+				runCase(run, fl, 0, c, opdrv.RouterProvider)
+				runCase(run, fl, 0, c, opdrv.RouterLegacy)
+			}
+		}
+		return
+	}
+
+	n := run.N(500, 12500)
+	ev.Parallel(n, 0, func(worker, i int) {
+		runCase(run, fl, worker, i, opdrv.RouterProvider)
+		runCase(run, fl, worker, i, opdrv.RouterLegacy)
+	})
+	fl.done()
+}
+
+func runCase(run *ev.Run, fl *inflight, worker, caseIdx, router int) {
+	r := run.CaseRand(streamCase, caseIdx)
+	v := drawVariant(r)
+	var x *world
+	if pi := mon.Catch(func() {
+		var err error
+		x, err = newWorld(run, r, v, router, caseIdx, worker)
+		if err != nil {
+			run.HarnessBug(fmt.Sprintf("fronthttp: world %s cannot be built: %v", v, err))
+			x = nil
+		}
+	}); pi != nil {
+		run.HarnessBug(fmt.Sprintf("fronthttp: building world %s panicked: %s at %s", v, pi.Value, pi.Frame))
+		return
+	}
+	if x == nil {
+		return
+	}
+	x.fl = fl
+	run.Count("http:world_caps", v.Caps.String())
+	run.Count("http:world_issuer_mode", v.IssuerMode)
+	if pi := mon.Catch(func() {
+		x.harvest()
+		for i := 0; i < batchPerCase; i++ {
+			q := x.nextRequest()
+			x.stats.fuzz++
+			x.exec(q, router)
+		}
+	}); pi != nil {
+		// panics inside handlers are caught by opdrv.Serve; what arrives here blew up in the generator or oracle
+		run.HarnessBug(fmt.Sprintf("fronthttp: case %d router %s: %s at %s\n%s", caseIdx, x.rname, pi.Value, pi.Frame, trim(pi.Stack, 3000)))
+	}
+}
+
+func trim(s string, n int) string {
+	if len(s) > n {
+		return s[:n] + "...[trimmed]"
+	}
+	return s
+}
+
+// ---------- execution ----------
+
+func (x *world) exec(q *Req, router int) *opdrv.Resp {
+	if rep := q.sanitise("op.verif.test"); rep > 0 {
+		x.run.CountN("http:repaired_before_execution(server would answer 400 itself)", "parts", int64(rep))
+	}
+	hr, err := q.HTTP()
+	if err != nil {
+		x.run.HarnessBug("fronthttp: request not buildable after sanitise: " + err.Error())
+		return &opdrv.Resp{Recorder: mon.NewRecorder(), Router: router}
+	}
+	x.k++
+	x.fl.set(x.worker, x.caseIdx, opdrv.RouterNames[router], x.k, q)
+	x.run.Eval()
+	resp := opdrv.Serve(x.w.Handlers[router], hr, router)
+	x.judge(q, router, resp)
+	if len(x.hist) >= 8 {
+		x.hist = x.hist[1:]
+	}
+	x.hist = append(x.hist, fmt.Sprintf("#%d %s -> %d", x.k, q.brief(), resp.Status))
+	return resp
+}
+
+// endpointOf names the route a path belongs to on a router ("unrouted" for everything else).
+func (x *world) endpointOf(router int, path string) string {
+	m := x.ppaths
+	if router == x.router {
+		m = x.paths
+	}
+	for _, n := range endpointNames {
+		if m[n] != "" && m[n] == path {
+			return n
+		}
+	}
+	return "unrouted"
+}
+
+type respLit struct {
+	Status           int                 `json:"status"`
+	WriteHeaderCalls int                 `json:"write_header_calls"`
+	Superfluous      []int               `json:"superfluous_write_header_codes,omitempty"`
+	Header           map[string][]string `json:"header,omitempty"`
+	Body             Lit                 `json:"body"`
+}
+
+func litResp(resp *opdrv.Resp) respLit {
+	return respLit{Status: resp.Status, WriteHeaderCalls: resp.WriteHeaderCalls, Superfluous: resp.SuperfluousCodes, Header: resp.SentHeader, Body: Lit(resp.Body.String())}
+}
+
+// isErrorResponse: an HTTP error status, or a redirect that carries an OAuth error to the client.
+func isErrorResponse(resp *opdrv.Resp) bool {
+	if resp.Status >= 400 {
+		return true
+	}
+	if resp.Status >= 300 && resp.Status < 400 {
+		loc := resp.Location()
+		if i := strings.IndexAny(loc, "?#"); i >= 0 {
+			rest := loc[i+1:]
+			for _, part := range strings.FieldsFunc(rest, func(r rune) bool { return r == '&' || r == '#' || r == '?' }) {
+				if strings.HasPrefix(part, "error=") {
+					return true
+				}
+			}
+		}
+	}
+	return false
+}
+
+// jsonDocuments counts the top-level JSON values of body; err is the first syntax error.
+func jsonDocuments(body []byte) (int, error) {
+	dec := json.NewDecoder(bytes.NewReader(body))
+	n := 0
+	for {
+		var v any
+		err := dec.Decode(&v)
+		if err == io.EOF {
+			return n, nil
+		}
+		if err != nil {
+			return n, err
+		}
+		n++
+	}
+}
+
+func mutBucket(m string) string {
+	p := strings.Split(m, ":")
+	switch p[0] {
+	case "val":
+		if len(p) >= 3 {
+			return "val:" + p[2]
+		}
+	case "drop":
+		return "drop"
+	case "dup":
+		if len(p) >= 3 {
+			k := p[1]
+			if k != "grant_type" && k != "client_id" && k != "redirect_uri" {
+				k = "other"
+			}
+			return "dup:" + k + ":" + p[2]
+		}
+	}
+	return m
+}
+
+func (x *world) judge(q *Req, router int, resp *opdrv.Resp) {
+	run := x.run
+	rn := opdrv.RouterNames[router]
+	endpoint := x.endpointOf(router, q.path())
+	journal := x.w.Store.JournalSince(resp.SeqStart)
+	violate := func(class, what string, extra map[string]any) {
+		wit := map[string]any{"front": "http", "router": rn, "world": x.v, "request_index_in_case": x.k, "request": q, "response": litResp(resp),
+			"storage_calls_of_this_request": journal, "preceding_requests": append([]string(nil), x.hist...)}
+		for k, v := range extra {
+			wit[k] = v
+		}
+		if run.Violation(keyPrefix+class, int64(x.caseIdx), what, wit) {
+			run.SampleKind("http:violation:"+class, map[string]any{"router": rn, "request": q, "response": litResp(resp), "what": what})
+		}
+	}
+
+	// ----- evidence: what was sent, what came back -----
+	kind := "fuzz"
+	if q.Flow {
+		kind = "flow"
+		x.stats.flows++
+	}
+	run.Count("http:requests", kind+":"+rn)
+	run.Count("http:op", q.Op)
+	for _, m := range q.Muts {
+		run.Count("http:mutation", mutBucket(m))
+	}
+	for _, e := range journal {
+		run.Count("http:storage_calls", e.Method)
+	}
+
+	// ----- 1. no panic -----
+	if pi := resp.Panic; pi != nil {
+		run.Count("http:outcome:"+rn, endpoint+"|panic")
+		site := pi.Site()
+		switch {
+		case pi.InRepo:
+		case pi.Harness && (strings.Contains(pi.Frame, "opdrv.Serve") || strings.Contains(pi.Frame, "/internal/opdrv/")):
+			// no library and no harness frame between the panic and the call of ServeHTTP: it blew up in a dependency
+			// the router called directly (chi, cors, net/http); still a panic of the provider's handler
+			site = "router-dependency"
+		default:
+			run.HarnessBug(fmt.Sprintf("fronthttp: harness panicked while serving %s: %s at %s\n%s", q.brief(), pi.Value, pi.Frame, trim(pi.Stack, 2500)))
+			return
+		}
+		written := "nothing had been written"
+		if resp.Status != 0 {
+			written = fmt.Sprintf("after it had already answered %d %s", resp.Status, strings.TrimSpace(trim(resp.Body.String(), 200)))
+		}
+		violate("panic:"+site, fmt.Sprintf("%s router: handler of %s panicked (%s) %s", rn, endpoint, pi.Value, written),
+			map[string]any{"panic": map[string]any{"value": pi.Value, "frame": pi.Frame, "stack": trim(pi.Stack, 6000)}})
+		run.Distinct(strings.Join([]string{"http", rn, q.Op, dimMuts(q.Muts), "panic"}, "|"))
+		return
+	}
+
+	status := resp.Status
+	run.Count("http:outcome:"+rn, fmt.Sprintf("%s|%d", endpoint, status))
+	ct := ""
+	if resp.SentHeader != nil {
+		ct = resp.SentHeader.Get("Content-Type")
+	}
+	run.Count("http:response_content_type", ct)
+	run.Distinct(strings.Join([]string{"http", rn, q.Op, dimMuts(q.Muts), fmt.Sprint(status)}, "|"))
+
+	// ----- 2. a response, written once -----
+	if status == 0 {
+		violate("no-response:"+endpoint, fmt.Sprintf("%s router: handler of %s returned without writing any response", rn, endpoint), nil)
+		return
+	}
+	if resp.WriteHeaderCalls > 1 || len(resp.SuperfluousCodes) > 0 {
+		violate("double-write:"+endpoint, fmt.Sprintf("%s router: handler of %s called WriteHeader again after the response had started (first %d, then %v)", rn, endpoint, status, resp.SuperfluousCodes), nil)
+	}
+	body := resp.Body.Bytes()
+	isJSON := strings.HasPrefix(strings.ToLower(ct), "application/json")
+	var doc map[string]any
+	if isJSON && len(bytes.TrimSpace(body)) > 0 {
+		n, err := jsonDocuments(body)
+		switch {
+		case err != nil:
+			violate("malformed-json:"+endpoint, fmt.Sprintf("%s router: %s answered %d with Content-Type application/json but the body does not parse: %v", rn, endpoint, status, err), nil)
+		case n > 1:
+			violate("double-write:"+endpoint, fmt.Sprintf("%s router: %s answered %d with %d concatenated JSON documents in one body", rn, endpoint, status, n), nil)
+		default:
+			_ = json.Unmarshal(body, &doc)
+		}
+	} else if !isJSON {
+		// text/plain (http.Error) and text/html (redirect page, form_post page): two documents show as a second
+		// document start after the first one ended
+		s := string(body)
+		if strings.Count(s, "<html") > 1 || strings.Count(s, "<form") > 1 || (strings.Contains(s, "</html>") && strings.TrimSpace(s[strings.LastIndex(s, "</html>")+7:]) != "") {
+			violate("double-write:"+endpoint, fmt.Sprintf("%s router: %s answered %d with two documents in one body", rn, endpoint, status), nil)
+		}
+		if t := strings.TrimSpace(s); strings.HasPrefix(t, "{") && strings.Contains(t, "}\n") && len(t) > strings.Index(t, "}\n")+2 {
+			if n, err := jsonDocuments([]byte(t)); err != nil && n >= 1 {
+				violate("double-write:"+endpoint, fmt.Sprintf("%s router: %s answered %d with a JSON document followed by further output", rn, endpoint, status), nil)
+			}
+		}
+	}
+	if status >= 300 && status < 400 && status != 304 && resp.Location() == "" {
+		violate("redirect-without-location:"+endpoint, fmt.Sprintf("%s router: %s answered %d without a Location header", rn, endpoint, status), nil)
+	}
+	if status < 100 || status > 599 {
+		violate("invalid-status:"+endpoint, fmt.Sprintf("%s router: %s wrote the invalid status %d", rn, endpoint, status), nil)
+	}
+
+	// ----- 3. nothing of the grant logic after an error answer -----
+	errResp := isErrorResponse(resp)
+	if resp.FirstWriteSeq != 0 {
+		for _, e := range journal {
+			if e.Seq <= resp.FirstWriteSeq {
+				continue
+			}
+			if e.Mutating() {
+				if errResp {
+					violate("mutation-after-error:"+endpoint+":"+e.Method, fmt.Sprintf("%s router: %s journaled the mutating storage call %s after it had started the error response %d", rn, endpoint, e.Method, status),
+						map[string]any{"first_write_seq": resp.FirstWriteSeq, "offending_call": e})
+				} else {
+					run.Count("http:grey", "mutating call after first byte of a success response:"+e.Method)
+				}
+			} else if errResp {
+				run.Count("http:grey", "non-mutating storage call after first byte of an error response:"+e.Method)
+			}
+		}
+	}
+
+	// ----- evidence and mandatory scenarios -----
+	oerr, _ := doc["error"].(string)
+	desc, _ := doc["error_description"].(string)
+	if status >= 400 {
+		if isJSON {
+			if oerr == "" {
+				run.Count("http:grey", "JSON error body without an error member ("+endpoint+")")
+			}
+			run.Count("http:oauth_error", oerr)
+		} else {
+			run.Count("http:oauth_error", "(non-JSON "+fmt.Sprint(status)+")")
+		}
+	}
+	for _, marker := range []string{"error parsing form", "error decoding form", "invalid basic auth header", "cannot parse form", "cannot parse auth request", "unable to parse request", "cannot parse device authentication request"} {
+		if strings.Contains(desc, marker) || (!isJSON && strings.Contains(string(body), marker)) {
+			run.Count("http:parse_error_branch", endpoint+":"+marker)
+			run.Observed("http:parse-error-branch:" + rn)
+			run.SampleKind("http:parse-error:"+rn, map[string]any{"router": rn, "request": q, "response": litResp(resp)})
+			if marker == "cannot parse auth request" || marker == "error decoding form" {
+				run.Observed("http:typed-field-error:" + rn)
+			}
+		}
+	}
+	if endpoint == "unrouted" && status == 404 {
+		run.Observed("http:unrouted-404:" + rn)
+	}
+	if x.v.IssuerMode != "static" && string(q.Host) != x.host {
+		run.Observed("http:dynamic-issuer-hostile-host:" + rn)
+		run.SampleKind("http:dynamic-issuer:"+rn, map[string]any{"router": rn, "issuer_mode": x.v.IssuerMode, "request": q, "response": litResp(resp)})
+	}
+	if strings.HasPrefix(q.Op, "token:") && !q.Flow {
+		g := strings.TrimPrefix(q.Op, "token:")
+		short := map[string]string{"urn:ietf:params:oauth:grant-type:jwt-bearer": "jwt-bearer", "urn:ietf:params:oauth:grant-type:token-exchange": "token-exchange",
+			"urn:ietf:params:oauth:grant-type:device_code": "device_code"}
+		if s, ok := short[g]; ok {
+			g = s
+		}
+		for _, e := range journal {
+			if e.Mutating() {
+				run.Observed("http:grant-reached-storage:" + g + ":" + rn)
+			}
+		}
+		if status == 200 && endpoint == "token" {
+			run.Observed("http:fuzzed-token-success:" + rn)
+			run.Count("http:fuzzed_token_success", g+":"+rn)
+			run.SampleKind("http:fuzz-success:"+g, map[string]any{"router": rn, "request": q, "response": litResp(resp)})
+		}
+	}
+	if q.Flow && q.Op == "flow:exchange" && status == 200 {
+		run.SampleKind("http:flow", map[string]any{"router": rn, "request": q, "response": litResp(resp)})
+	}
+}
+
+func dimMuts(ms []string) string {
+	if len(ms) == 0 {
+		return "-"
+	}
+	b := make([]string, len(ms))
+	for i, m := range ms {
+		b[i] = mutBucket(m)
+	}
+	sort.Strings(b)
+	return strings.Join(b, "+")
+}
+
+// ---------- the on-disk in-flight file ----------
+//
+// One fixed-size slot per worker, rewritten in place (pwrite) before every request, inside a JSON document that has
+// the shape of a replay file: {"property":..,"seed":..,"tier":..,"case":-1,"witness":{"front":"http","inflight":[..]}}.
+// A fatal runtime error (stack overflow, concurrent map writes) kills the process without running deferred code;
+// ./check then points to this file and `--replay` of it re-runs the cases that were in flight.
+
+const (
+	slotSize  = 8192
+	slotCount = 16
+)
+
+type inflight struct {
+	mu     sync.Mutex
+	f      *os.File
+	path   string
+	header int
+}
+
+func newInflight(run *ev.Run) *inflight {
+	fl := &inflight{}
+	if run.ReplayCase() >= 0 || len(run.ReplayWitness()) > 0 {
+		return fl // a replay must not overwrite the file it may be replaying
+	}
+	dir := filepath.Join(ev.Out, "replay")
+	_ = os.MkdirAll(dir, 0o755)
+	fl.path = filepath.Join(dir, run.ID+".inflight.json")
+	f, err := os.Create(fl.path)
+	if err != nil {
+		return fl
+	}
+	head := fmt.Sprintf("{\"property\":%q,\"seed\":%d,\"tier\":%q,\"case\":-1,\"witness\":{\"front\":\"http\",\"note\":\"requests in flight when the process died, one slot per worker\",\"inflight\":[\n", run.ID, run.Seed, run.Tier)
+	fl.header = len(head)
+	var b bytes.Buffer
+	b.WriteString(head)
+	for i := 0; i < slotCount; i++ {
+		b.Write(padSlot([]byte(`{"case":-1}`), i == slotCount-1))
+	}
+	b.WriteString("]}}\n")
+	if _, err := f.Write(b.Bytes()); err != nil {
+		f.Close()
+		return fl
+	}
+	fl.f = f
+	return fl
+}
+
+func padSlot(doc []byte, last bool) []byte {
+	out := bytes.Repeat([]byte{' '}, slotSize)
+	copy(out, doc)
+	if !last {
+		out[slotSize-2] = ','
+	}
+	out[slotSize-1] = '\n'
+	return out
+}
+
+func (fl *inflight) set(worker, caseIdx int, router string, k int, q *Req) {
+	if fl == nil || fl.f == nil || worker < 0 || worker >= slotCount {
+		return
+	}
+	doc, err := json.Marshal(map[string]any{"worker": worker, "case": caseIdx, "router": router, "request_index_in_case": k, "request": q})
+	if err != nil || len(doc) > slotSize-4 {
+		t := string(q.Target)
+		if len(t) > 1000 {
+			t = t[:1000]
+		}
+		doc, _ = json.Marshal(map[string]any{"worker": worker, "case": caseIdx, "router": router, "request_index_in_case": k,
+			"request_abbreviated": map[string]any{"method": q.Method, "target_head": Lit(t), "op": q.Op, "mutations": q.Muts, "body_len": len(q.Body)}})
+		if len(doc) > slotSize-4 {
+			doc = []byte(fmt.Sprintf(`{"worker":%d,"case":%d,"router":%q,"request_index_in_case":%d}`, worker, caseIdx, router, k))
+		}
+	}
+	_, _ = fl.f.WriteAt(padSlot(doc, worker == slotCount-1), int64(fl.header+worker*slotSize))
+}
+
+// done removes the file after the front has finished normally (nothing is in flight any more).
+func (fl *inflight) done() {
+	fl.mu.Lock()
+	defer fl.mu.Unlock()
+	if fl.f != nil {
+		fl.f.Close()
+		fl.f = nil
+		_ = os.Remove(fl.path)
+	}
+}
+
+func (fl *inflight) close() {
+	fl.mu.Lock()
+	defer fl.mu.Unlock()
+	if fl.f != nil {
+		fl.f.Close()
+		fl.f = nil
+	}
+}
+
+var _ = vstore.Full
+var _ = url.Parse
